@@ -325,8 +325,10 @@ static std::string parse_image(const Bytes& b, uint32_t& linktype, uint32_t& sna
 }
 
 // ------------------------------------------------------------------------------------------------ filters (oracle = libpcap itself)
-static const char* FILTERS[] = {"ip", "tcp port 80", "udp", "vlan", "ether src 02:00:00:00:00:01", "len > 60", "wlan type mgt"};
-static const int NFILTERS = 7;
+// the last one is the empty expression, which libpcap compiles to "accept every frame" (the harness does not assume that: it
+// compiles it like the others and asks pcap_offline_filter)
+static const char* FILTERS[] = {"ip", "tcp port 80", "udp", "vlan", "ether src 02:00:00:00:00:01", "len > 60", "wlan type mgt", ""};
+static const int NFILTERS = 8;
 // libpcap generates link-type code that depends on whether the handle reads a savefile (e.g. DLT_NULL: the BSD AF_INET6
 // values in a savefile, this host's AF_INET6 otherwise), so the reference program is compiled in the same libpcap context
 // as the API under test: on a savefile handle of the harness' own for the sniffer, on a pcap_open_dead handle for
@@ -559,6 +561,46 @@ static void read_and_judge(const char* stage, const std::string& path, const std
     judge(stage, exp, out, where, raw);
 }
 
+// Filter replaced on a live sniffer.  f1 is installed (through SnifferConfiguration::set_filter at construction, or through
+// BaseSniffer::set_filter after opening), k packets are taken with next_packet, BaseSniffer::set_filter(f2) is called, the rest
+// of the file is read with `tail`.  k = 0: both filters are installed before the first read.  The filter in force for a frame is
+// the last one installed before libpcap read that frame; the verdict is libpcap's own for that expression.
+static void switch_and_judge(Ctx& cx, const std::string& path, const std::vector<int>& seq, const std::vector<Ts>& ts,
+                             int f1, int f2, int k, int inst, int method, int tail) {
+    std::vector<Exp> exp;
+    int cur = k == 0 ? f2 : f1, delivered = 0;
+    for (size_t i = 0; i < seq.size(); ++i) {
+        const Frame& f = cx.alpha[seq[i]];
+        if (cx.orc.match_file(cur, f.b, f.len) && f.p.ok) { exp.push_back(Exp{ts[i], &f}); if (++delivered == k) cur = f2; }
+    }
+    const int reader = tail == 0 ? R_NEXT : tail == 1 ? R_ITER_PRE : R_LOOP_PKTREF;
+    std::string where = std::string("first filter='") + FILTERS[f1] + "' via " + (inst == 0 ? "SnifferConfiguration::set_filter" : "BaseSniffer::set_filter") +
+                        ", after " + str(k) + " packets set_filter('" + FILTERS[f2] + "'), then reader=" + READER_NAME[reader] + " method=" + METHOD_NAME[method];
+    std::vector<Out> out, rest;
+    std::string problem;
+    Mon::reset();
+    try {
+        std::unique_ptr<FileSniffer> s = open_sniffer(path, inst == 0 ? C_PATH_CFG : C_SET_AFTER, method, FILTERS[f1], false);
+        for (int j = 0; j < k; ++j) { Packet p(s->next_packet()); if (!p) break; out.push_back(out_of(*p.pdu(), &p.timestamp())); }
+        if (!s->set_filter(FILTERS[f2])) {
+            viol("sniffer-filter-switch:valid-expression-refused", "set_filter returned false for an expression libpcap compiles for this link type", where);
+            return;
+        }
+        problem = run_reader(*s, reader, 0, rest);
+        out.insert(out.end(), rest.begin(), rest.end());
+    } catch (std::exception& e) {
+        viol("sniffer-filter-switch:exception-escaped:" + exc_name(e), std::string("what(): ") + e.what(), where);
+        return;
+    } catch (...) { viol("sniffer-filter-switch:exception-escaped:unknown", "", where); return; }
+    ++g_eval;
+    R.count("evaluations");
+    R.count("filter_switch_reads");
+    R.count("packets_delivered", out.size());
+    if (mon_error()) { viol(Mon::first, Mon::first_detail + " while reading", where); if (Mon::wrote) return; }
+    if (!problem.empty()) { size_t b = problem.find('|'); viol("sniffer-filter-switch:" + problem.substr(0, b), problem.substr(b + 1), where); }
+    judge("sniffer-filter-switch", exp, out, where, false);
+}
+
 static std::string seq_name(const std::vector<Frame>& alpha, const std::vector<int>& seq) {
     std::string s;
     for (size_t i = 0; i < seq.size(); ++i) s += (i ? "," : "") + alpha[seq[i]].name;
@@ -683,6 +725,30 @@ static void run_case(Ctx& cx, const std::vector<int>& seq, int rot, bool full) {
                            (fi + (int)n + 2) % N_CTOR, FILTERS[fi], false);
             read_and_judge("sniffer-filter", mf.path, fexp_raw, R_NEXT, 0, M_DISPATCH, (fi + (int)n + 3) % N_CTOR, FILTERS[fi], true);
             if (n <= 1) for (int c = 0; c < N_CTOR; ++c) read_and_judge("sniffer-filter", mf.path, fexp, R_ITER_POST, 0, M_LOOP, c, FILTERS[fi], false);
+        }
+    }
+
+    // ---- B2. a filter replaced by another one on the same sniffer: every ordered pair (f1, f2) of the expressions libpcap accepts
+    // for the link type (the empty expression included) x switch point k in 0..min(2, n) x way of installing f1.
+    // Full product for sequences of length <= 2; longer sequences take 4 combinations each, rotating through the product.
+    if (full) {
+        struct Combo { int f1, f2, k, inst; };
+        std::vector<Combo> combos;
+        const int kmax = n < 2 ? (int)n : 2;
+        for (int f1 = 0; f1 < NFILTERS; ++f1) {
+            if (!cx.orc.valid[f1] || !cx.orc.valid_file[f1]) continue;
+            for (int f2 = 0; f2 < NFILTERS; ++f2) {
+                if (!cx.orc.valid[f2] || !cx.orc.valid_file[f2]) continue;
+                for (int k = 0; k <= kmax; ++k) for (int inst = 0; inst < 2; ++inst) combos.push_back(Combo{f1, f2, k, inst});
+            }
+        }
+        uint64_t ord = 0;
+        for (size_t i = 0; i < n; ++i) ord = ord * cx.alpha.size() + seq[i];
+        const size_t take = n <= 2 ? combos.size() : 4;
+        for (size_t j = 0; j < take && !combos.empty(); ++j) {
+            const size_t ci = n <= 2 ? j : (size_t)((ord * 4 + j) % combos.size());
+            const Combo& c = combos[ci];
+            switch_and_judge(cx, mf.path, seq, ts, c.f1, c.f2, c.k, c.inst, (int)((ci + ci / 3) % N_METHOD), (int)((ci / 2 + c.f1) % 3));
         }
     }
 
@@ -837,8 +903,8 @@ static void invalid_filter_checks(Ctx& cx, int only = -1) {
             if (res == "accepted" || res.compare(0, 4, "EXC:") == 0)
                 viol("sniffer-filter:invalid-expression-not-refused", "libpcap rejects the expression for this link type, sniffer: " + res, where + " ctor=" + CTOR_NAME[c]);
         }
-        if (skipped(9 + fi)) { R.flags["exhaustive"] = false; continue; }     // crashed the process in an earlier attempt (reported by the driver)
-        set_case(9 + fi, "OfflinePacketFilter-invalid-filter-expression", g_case);
+        if (skipped(16 + fi)) { R.flags["exhaustive"] = false; continue; }     // crashed the process in an earlier attempt (reported by the driver)
+        set_case(16 + fi, "OfflinePacketFilter-invalid-filter-expression", g_case);
         Mon::reset();
         std::string res;
         try { std::shared_ptr<OfflinePacketFilter> f = make_offline(cx.link->dlt, expr); res = "accepted"; }
@@ -893,7 +959,7 @@ static void run_job(int job) {
     if (shard == 0) invalid_filter_checks(cx);
     if (shard == 0 && l->dlt == DLT_NULL) loop_dlt_observation();
     const int a = (int)cx.alpha.size();
-    uint64_t index = 32;                      // 0: setup, 1..16: invalid-filter cases
+    uint64_t index = 32;                      // 0: setup, 1..9 and 16..24: invalid-filter cases
     bool cut = false;
     for (int len = 0; len <= max_len() && !cut; ++len) {
         uint64_t total = 1; for (int i = 0; i < len; ++i) total *= a;
